@@ -19,7 +19,7 @@ type C12Case struct {
 
 var c12Counts = map[string]int{"quick": 30_000, "thorough": 600_000}
 
-func c12Gen(r *gen.Rng, tier string, idx int) interface{} {
+func c12GenPlain(r *gen.Rng, tier string, idx int) interface{} {
 	o := gen.FormulaOpts{MaxDepth: r.Range(1, 5), NbVars: r.Range(1, 9), Consts: r.Chance(1, 2), Xor: true, NegUniq: false, MaxGroup: 0}
 	if r.Chance(1, 2) {
 		o.MaxGroup = r.Range(1, 9)
@@ -150,4 +150,12 @@ func init() {
 			"thorough": {"assignments_compared": 4000000, "exports_with_auxiliary_vars": 60000},
 		},
 	})
+}
+
+func c12Gen(r *gen.Rng, tier string, idx int) interface{} {
+	c := c12GenPlain(r, tier, idx).(*C12Case)
+	if r.Chance(1, 8) { // variable names that look like the translation's own auxiliary names
+		gen.RenameAdversarial(r, c.F)
+	}
+	return c
 }
